@@ -548,6 +548,9 @@ def execute(world, op, counters=None):
             skip = [osyms[k % len(osyms)] for k in op["skip"]] \
                 if osyms else []
             pre_self = dict(mod["names"])
+            outer_names = set()
+            for tab in world.chain(table)[1:]:
+                outer_names |= set(world.model[id(tab)]["names"])
             pre_self_names = {id(s): s.name for s in pre_self.values()}
             pre_other_names = {id(s): s.name for s in osyms}
             desc = (name, ti, world.tid(other),
@@ -577,7 +580,7 @@ def execute(world, op, counters=None):
                 if world.scope_of(table) not in (None, 0):
                     counters.inc2("probes", "merge_into_nested_scope")
             vio = check_merge(world, table, pre_self, pre_self_names, osyms,
-                              pre_other_names, skip)
+                              pre_other_names, skip, outer_names)
             # resync model from the real table; discard `other`
             mod["names"] = dict(table.symbols_dict)
             mod["tags"] = dict(table.tags_dict)
@@ -598,7 +601,7 @@ def pick_kind_for_swap(op):
 
 
 def check_merge(world, table, pre_self, pre_self_names, osyms,
-                pre_other_names, skip):
+                pre_other_names, skip, outer_names=()):
     S = world.S
     now = table.symbols_dict
     now_ids = {id(s) for s in now.values()}
@@ -632,6 +635,13 @@ def check_merge(world, table, pre_self, pre_self_names, osyms,
                     old.lower() in pre_keys_other):
                 return ("merge-renamed-without-clash",
                         {"old": old, "new": sym.name})
+    # (2b) a name generated by the merge is fresh: it clashes neither with
+    # the receiving table's enclosing scopes nor with the other table
+    for sym in list(pre_self.values()) + list(osyms):
+        old = pre_self_names.get(id(sym), pre_other_names.get(id(sym)))
+        if sym.name != old and sym.name.lower() in outer_names:
+            return ("merge-generated-name-clashes-with-enclosing-scope",
+                    {"old": old, "new": sym.name})
     # (3) imports point at containers visible from the receiving table
     for sym in osyms:
         if id(sym) in now_ids and sym.is_import:
